@@ -112,11 +112,14 @@ Section Served.
   Lemma cache_get_filter keep c h :
     cache_get (filter (fun e => keep (fst e)) c) h = if keep h then cache_get c h else None.
   Proof.
-    induction c as [|[h' v] r IH]; cbn; [destruct (keep h); reflexivity|].
-    destruct (keep h') eqn:Ek; cbn.
-    - destruct (h' =? h) eqn:E; [replace h with h' by lia; now rewrite Ek|exact IH].
-    - destruct (h' =? h) eqn:E; [replace h with h' by lia; rewrite Ek in *|exact IH].
-      rewrite IH. replace h with h' by lia. now rewrite Ek.
+    induction c as [|[h' v] r IH]; cbn [filter cache_get fst].
+    - destruct (keep h); reflexivity.
+    - destruct (keep h') eqn:Ek; cbn [cache_get].
+      + destruct (h' =? h) eqn:E.
+        * assert (h = h') by lia. subst. now rewrite Ek.
+        * exact IH.
+      + rewrite IH. destruct (h' =? h) eqn:E; [|reflexivity].
+        assert (h = h') by lia. subst. now rewrite Ek.
   Qed.
 
   Lemma consistent_evict keep c : consistent c -> consistent (filter (fun e => keep (fst e)) c).
@@ -156,20 +159,21 @@ Proof. unfold too_many_txs. lia. Qed.
 
 (* ---------- varints ---------- *)
 
-Lemma varint_roundtrip fuel : forall n rest, n < 128 ^ N.of_nat fuel ->
+Lemma varint_roundtrip fuel : forall n rest, (0 < fuel)%nat -> n < 128 ^ N.of_nat fuel ->
   varint_dec fuel (varint_enc fuel n ++ rest) = Some (n, rest).
 Proof.
-  induction fuel as [|f IH]; intros n rest Hn.
-  - cbn in Hn. lia.
-  - cbn [varint_enc]. destruct (n <? 128) eqn:E.
-    + cbn. rewrite E. reflexivity.
-    + cbn [app varint_dec]. replace (n mod 128 + 128 <? 128) with false by lia.
-      assert (Hdiv : n / 128 < 128 ^ N.of_nat f).
-      { apply N.div_lt_upper_bound; [lia|].
-        replace (N.of_nat (S f)) with (N.succ (N.of_nat f)) in Hn by lia.
-        rewrite N.pow_succ_r' in Hn. exact Hn. }
-      rewrite (IH (n / 128) rest Hdiv). f_equal. f_equal.
-      pose proof (N.div_mod n 128 ltac:(lia)). lia.
+  induction fuel as [|f IH]; intros n rest Hpos Hn; [lia|].
+  cbn [varint_enc]. destruct (n <? 128) eqn:E.
+  - cbn. rewrite E. reflexivity.
+  - cbn [app varint_dec]. replace (n mod 128 + 128 <? 128) with false by lia.
+    assert (Hdiv : n / 128 < 128 ^ N.of_nat f).
+    { apply N.div_lt_upper_bound; [lia|].
+      replace (N.of_nat (S f)) with (N.succ (N.of_nat f)) in Hn by lia.
+      rewrite N.pow_succ_r' in Hn. exact Hn. }
+    assert (Hf : (0 < f)%nat).
+    { destruct f; [|lia]. cbn in Hdiv. assert (1 <= n / 128) by (apply N.div_le_lower_bound; lia). lia. }
+    rewrite (IH (n / 128) rest Hf Hdiv). f_equal. f_equal.
+    pose proof (N.div_mod n 128 ltac:(lia)). lia.
 Qed.
 
 Lemma u32_fits n : n <= u32max -> n < 128 ^ N.of_nat 5.
@@ -202,7 +206,7 @@ Proof.
   rewrite E1, E2, (IH rest Hr). reflexivity.
 Qed.
 
-Lemma concat_length32 ids : Forall (fun i => length i = 32%nat) ids ->
+Lemma concat_length32 (ids : list (list N)) : Forall (fun i => length i = 32%nat) ids ->
   length (concat ids) = (length ids * 32)%nat.
 Proof.
   induction 1 as [|i ids Hi _ IH]; cbn; [reflexivity|]. rewrite app_length, IH, Hi. lia.
@@ -213,14 +217,14 @@ Theorem request_roundtrip_all m rest : wf_request m ->
 Proof.
   destruct m as [a b|a b| |ids]; cbn [wf_request encode_request]; intro H.
   - destruct H as [Ha Hb]. cbn [app decode_request]. unfold dec_u32, enc_u32.
-    rewrite <- app_assoc, (varint_roundtrip 5 a _ (u32_fits a Ha)).
-    rewrite (varint_roundtrip 5 b _ (u32_fits b Hb)). reflexivity.
+    rewrite <- app_assoc, (varint_roundtrip 5 a _ ltac:(lia) (u32_fits a Ha)).
+    rewrite (varint_roundtrip 5 b _ ltac:(lia) (u32_fits b Hb)). reflexivity.
   - destruct H as [Ha Hb]. cbn [app decode_request]. unfold dec_u32, enc_u32.
-    rewrite <- app_assoc, (varint_roundtrip 5 a _ (u32_fits a Ha)).
-    rewrite (varint_roundtrip 5 b _ (u32_fits b Hb)). reflexivity.
+    rewrite <- app_assoc, (varint_roundtrip 5 a _ ltac:(lia) (u32_fits a Ha)).
+    rewrite (varint_roundtrip 5 b _ ltac:(lia) (u32_fits b Hb)). reflexivity.
   - reflexivity.
   - destruct H as [Hl Hf]. cbn [app decode_request]. unfold dec_usize, enc_usize.
-    rewrite <- app_assoc, (varint_roundtrip 10 _ _ (u64_fits _ Hl)).
+    rewrite <- app_assoc, (varint_roundtrip 10 _ _ ltac:(lia) (u64_fits _ Hl)).
     assert (Hlen : N.of_nat (length (concat ids ++ rest)) <? N.of_nat (length ids) * 32 = false).
     { rewrite app_length, (concat_length32 ids Hf). lia. }
     rewrite Hlen. rewrite Nat2N.id, (take_ids_concat ids rest Hf). reflexivity.
